@@ -2,6 +2,8 @@ package main
 
 import (
 	"fmt"
+	"go/token"
+	"go/types"
 	"regexp"
 	"strings"
 
@@ -500,4 +502,65 @@ func rawCallsTo(w *World, f *ssa.Function, spec string) []ssa.CallInstruction {
 		}
 	}
 	return out
+}
+
+// ------------------------------------------------------------------ C19.R8
+// What the RPC serves for a search hit comes from two stores that are pruned independently: the tx / block
+// index keeps every entry, the block store drops heights below the retain height (and holds nothing below
+// the snapshot height after state sync). Every Load* of the block store answers nil for such a height, so
+// a handler in rpc/core that dereferences the result without a test turns one pruned hit into a panic of
+// the whole request (F43: tx and tx_search with prove=true; block_by_hash between its two loads). Rule:
+// in rpc/core a value returned by a block-store Load* is dereferenced (field access, method call on it,
+// load through it) only where it is known non-nil.
+func guardNonNil(name string, v ssa.Value) Guard {
+	return Guard{Name: name, Key: fmt.Sprintf("nonnil:%p", v), Match: func(w *World, f *ssa.Function, a Atom) bool {
+		return a.Kind == "nonnil" && a.V != nil && sameValue(a.V, v)
+	}}
+}
+
+func init() {
+	register("C19", "R8", "K1", "rpc/core dereferences what the block store returns only behind a nil test (index and block store are pruned independently)", 6, func(c *Ctx) {
+		w := c.W
+		nLoads, nDeref := 0, 0
+		ky := newKeyer()
+		for _, f := range w.FuncsInPkg("rpc/core") {
+			for _, b := range f.Blocks {
+				for _, in := range b.Instrs {
+					call, ok := in.(*ssa.Call)
+					if !ok {
+						continue
+					}
+					d, okd := describeCallee(call)
+					if !okd || !strings.HasPrefix(d.Name, "Load") || !strings.Contains(w.expr(call), "BlockStore.Load") {
+						continue
+					}
+					if _, isPtr := call.Type().Underlying().(*types.Pointer); !isPtr {
+						continue
+					}
+					nLoads++
+					for _, ref := range *call.Referrers() {
+						deref := false
+						switch r := ref.(type) {
+						case *ssa.FieldAddr:
+							deref = r.X == ssa.Value(call)
+						case *ssa.UnOp:
+							deref = r.Op == token.MUL && r.X == ssa.Value(call)
+						case *ssa.Call:
+							// a method called on the value (receiver position)
+							if !r.Call.IsInvoke() && len(r.Call.Args) > 0 && r.Call.Args[0] == ssa.Value(call) && r.Call.Signature().Recv() != nil {
+								deref = true
+							}
+						}
+						if !deref {
+							continue
+						}
+						nDeref++
+						c.guards(f, ref, ky.key(f, "use of "+w.expr(call)), 0, guardNonNil("the loaded value is not nil", call))
+					}
+				}
+			}
+		}
+		c.Check(nLoads >= 10, "rpc/core :: block store loads found", "-", ">= 10", fmt.Sprintf("%d", nLoads))
+		c.Check(nDeref >= 6, "rpc/core :: dereferences of loaded values found", "-", ">= 6", fmt.Sprintf("%d", nDeref))
+	})
 }
